@@ -344,8 +344,13 @@ func readers(x, y string) c18Call {
 		a, b := s.ops[x], s.ops[y]
 		i, ierr := a.Int64()
 		f, _ := b.Float64()
-		var in, fr apd.Decimal
+		var in, fr, fr2, in2 apd.Decimal
 		a.Modf(&in, &fr)
+		a.Modf(nil, &fr2) // the discarded part has no destination of the caller's
+		b.Modf(&in2, nil)
+		if fr2.CmpTotal(&fr) != 0 {
+			fr.Set(&fr2) // surfaces in the rendered outcome
+		}
 		fm, ng, co, ex := b.Decompose(nil)
 		str, txt, cmp1, cmp2, nd, iz := a.String(), b.Text('e'), a.Cmp(b), b.CmpTotal(a), a.NumDigits()+b.NumDigits(), a.IsZero()
 		return quietly(func() string {
